@@ -166,6 +166,8 @@ struct W<'a, 'b> {
     ch: &'a mut Choices<'b>,
     feats: Vec<String>,
     crlf: bool,
+    /// lines end in a carriage return alone (the parser ends lines at `\n` or `\r`)
+    lone_cr: bool,
     comments: bool,
 }
 
@@ -176,7 +178,9 @@ impl W<'_, '_> {
         }
     }
     fn nl(&mut self) {
-        if self.crlf {
+        if self.lone_cr {
+            self.s.push('\r');
+        } else if self.crlf {
             self.s.push_str("\r\n");
         } else {
             self.s.push('\n');
@@ -264,17 +268,22 @@ pub fn render_varied(ch: &mut Choices, ag: &AG, kind: YKind) -> (String, YLayout
         token_first: vec![None; nt],
         ..YLayout::default()
     };
-    let crlf = ch.chance(1, 6);
+    let line_end = ch.weighted(&[9, 2, 1]);
+    let (crlf, lone_cr) = (line_end == 1, line_end == 2);
     let comments = ch.chance(2, 3);
     let mut w = W {
         s: String::new(),
         ch,
         feats: vec![],
         crlf,
+        lone_cr,
         comments,
     };
     if crlf {
         w.feat("crlf");
+    }
+    if lone_cr {
+        w.feat("lone-cr-line-ends");
     }
     // which tokens are declared with %token (identifier tokens declared => bare spelling allowed)
     let rule_names: Vec<&str> = ag.rules.iter().map(|r| r.name.as_str()).collect();
